@@ -22,9 +22,20 @@ func main() {
 	repo := flag.String("repo", "/repo", "repository root")
 	verif := flag.String("verif", "/verif", "verification directory (ref/, evidence/, known_findings.json)")
 	list := flag.Bool("list", false, "list implemented properties")
+	dbg := flag.String("debug", "", "developer dump")
 	flag.Parse()
 	if *list {
 		fmt.Println(strings.Join(rules.IDs(), " "))
+		return
+	}
+	if *dbg != "" {
+		abs, _ := filepath.Abs(*repo)
+		prog, err := load.Load(abs)
+		if err != nil {
+			fmt.Fprintln(os.Stderr, err)
+			os.Exit(2)
+		}
+		rules.Debug(&rules.Ctx{Prog: prog, Tier: *tier, VerifDir: *verif, R: evid.New("dbg", "other", *tier, 0)}, *dbg)
 		return
 	}
 	p, ok := rules.Registry[*prop]
